@@ -382,6 +382,16 @@ def run_serial_case(case):
         try:
             tatsu.parse(pg, 'ab 12 ( x )', semantics=ModelBuilderSemantics())
             tatsu.parse(pg, 'ab 12 ()', asmodel=True)
+            # ... and the object-model module that to_python_model() generates for a grammar of an EBNF-like language was loaded: it DECLARES
+            # node classes called Grammar, Rule, Choice, Sequence, Token, Call
+            eg = ("@@grammar :: Ebnfish\nstart::Grammar = rules:{rule}+ $ ;\nrule::Rule = name:/[a-z]+/ '=' exp:choice ';' ;\n"
+                  "choice::Choice = options:'|'.{seq}+ ;\nseq::Sequence = elements:{elem}+ ;\nelem = token | call ;\n"
+                  "token::Token = /'[^']*'/ ;\ncall::Call = name:/[a-z]+/ ;\n")
+            import types as _types
+            mod = _types.ModuleType('ebnfish_model')
+            import sys as _sys
+            _sys.modules['ebnfish_model'] = mod
+            exec(compile(tatsu.to_python_model(eg, name='Ebnfish'), '<ebnfish_model>', 'exec'), mod.__dict__)   # noqa: S102
         except Exception as e:  # noqa: BLE001
             out['skip'] = f'prelude failed: {type(e).__name__}: {e}'[:200]
             return out
